@@ -92,15 +92,26 @@ def qsname(q):
 
 
 class FakeConnection(object):
+    """stream ids are handed out like cassandra.connection.Connection.get_request_id: a deque popped from the left (so a
+    fresh connection gives 0 first), ids of answered requests are appended at the right (FIFO recycling), highest+1 when empty"""
     def __init__(self, env, hidx):
         self.env, self.hidx = env, hidx
         self.lock = Lock()
         self._requests = {}
-        self.request_ids = collections.deque()     # _query hands the stream id back here when send_msg raises ConnectionBusy
+        n = env.sc.get('nids', 4)
+        self.request_ids = collections.deque(range(n))
+        self.highest_request_id = n - 1
         self.orphaned_request_ids = set()
         self.orphaned_threshold = 10 ** 9
         self.is_defunct = False
         self.is_closed = False
+
+    def get_request_id(self):
+        try:
+            return self.request_ids.popleft()
+        except IndexError:
+            self.highest_request_id += 1
+            return self.highest_request_id
 
     @property
     def keyspace(self):
@@ -113,7 +124,7 @@ class FakeConnection(object):
             raise d['C'].ConnectionBusy('Connection is overloaded')
         if st == PSENDFAIL:
             raise d['C'].ConnectionShutdown('send-fail')
-        rec = {'host': self.hidx, 'cb': cb, 'msg': msg}
+        rec = {'host': self.hidx, 'cb': cb, 'msg': msg, 'conn': self, 'rid': request_id}
         if isinstance(msg, d['P'].PrepareMessage):
             rec.update(kind=1, qs=msg.query, ks=msg.keyspace)
         else:
@@ -130,7 +141,11 @@ class FakeConnection(object):
 class FakePool(object):
     def __init__(self, env, hidx):
         self.env, self.hidx = env, hidx
-        self.next_id = 0
+        self.conn = FakeConnection(env, hidx)
+
+    def reconnect(self):
+        """the pool replaced its connection (fresh stream ids)"""
+        self.conn = FakeConnection(self.env, self.hidx)
 
     @property
     def is_shutdown(self):
@@ -152,11 +167,30 @@ class FakePool(object):
             raise d['PO'].NoConnectionsAvailable()
         if st == PFAIL:
             raise RuntimeError('borrow-fail')
-        self.next_id += 1
-        return FakeConnection(self.env, self.hidx), self.next_id
+        with self.conn.lock:
+            return self.conn, self.conn.get_request_id()
 
     def return_connection(self, conn, stream_was_orphaned=False):
         self.env.returns += 1
+
+
+class FakeMetrics(object):
+    """what ResponseFuture uses of cassandra.metrics.Metrics (Cluster(metrics_enabled=True)); greplin.scales is not installed"""
+    class _Timer(object):
+        def __init__(self):
+            self.values = 0
+
+        def addValue(self, v):
+            self.values += 1
+
+    def __init__(self):
+        self.request_timer = self._Timer()
+        self.counts = collections.Counter()
+
+    def __getattr__(self, name):
+        if name.startswith('on_'):
+            return lambda *a, **k: self.counts.update([name])
+        raise AttributeError(name)
 
 
 class PoolTable(object):
@@ -250,6 +284,8 @@ def make_session_class():
             self._protocol_version = sc['pv']
             self._pools = PoolTable(env, hosts)
             self.row_factory = lambda names, rows: ('rows', rows)
+            if sc.get('metrics'):
+                self._metrics = FakeMetrics()
 
         @property
         def keyspace(self):
@@ -457,7 +493,7 @@ class Run(object):
         if sc['ps'] is not None:
             # 'pidem': is_idempotent of the PreparedStatement at execution time (may differ from the BoundStatement's,
             # which is the statement actually executed: flag set after binding, or overridden on the bound statement)
-            bound = query.bind(())
+            bound = query.bind((1,) if sc.get('markers') else ())
             if sc.get('pidem') is not None:
                 query.is_idempotent = bool(sc['pidem'])
             bound.is_idempotent = bool(sc['idem'])
@@ -472,8 +508,14 @@ class Run(object):
         self.n_log = 0
 
     def _ps(self, i, q, k):
+        """as Session.prepare does from the PREPARED response: PreparedStatement.from_message (statement keyspace = the keyspace
+        given to prepare()); sc['markers']: the statement has one bind marker (the other branch of from_message)"""
         d = drv()
-        return d['Q'].PreparedStatement([], idbytes(i), None, qsname(q), ksname(k), self.sc['pv'], [], None)
+        bind_meta, pk = [], None
+        if self.sc.get('markers'):
+            from cassandra.cqltypes import Int32Type
+            bind_meta, pk = [d['P'].ColumnMetadata('ksx', 't', 'c', Int32Type)], [0]
+        return d['Q'].PreparedStatement.from_message(idbytes(i), bind_meta, pk, None, qsname(q), ksname(k), self.sc['pv'], [], None)
 
     # ------------------------------------------------------------------ enabledness (mirrors the model)
     def open_attempts(self):
@@ -499,7 +541,11 @@ class Run(object):
             i = op[1]
             if i < len(env.sent) and not env.sent[i].get('answered'):
                 env.sent[i]['answered'] = True
-                env.sent[i]['cb'](make_response(env, op[2]))
+                rec = env.sent[i]
+                rec['conn']._requests.pop(rec['rid'], None)
+                rec['cb'](make_response(env, op[2]))
+                with rec['conn'].lock:                      # process_msg: the stream id becomes reusable (FIFO)
+                    rec['conn'].request_ids.append(rec['rid'])
         elif k == 'run':
             if op[1] < len(env.queue):
                 fn, args, kwargs = env.queue.pop(op[1])
@@ -512,6 +558,8 @@ class Run(object):
                     break
         elif k == 'pool':
             env.pool_state[op[1]] = op[2]
+            if op[2] == PHEALTHY:
+                self.session._pools.pools[self.hosts[op[1]]].reconnect()    # a replaced connection: stream ids start at 0 again
         elif k == 'ks':
             env.keyspace = op[1]
         else:
